@@ -64,7 +64,21 @@ pub fn generate(seed: u64, idx: u64) -> Scenario {
         t.push_str(*rng.pick(&TAILS));
     }
     s.open(&uri, &t);
-    let n = rng.range(1, 40);
+    let mut n = rng.range(1, 40);
+    if rng.chance(80) {
+        // written from nothing, a few characters per notification
+        s.close(&uri);
+        s.open(&uri, "");
+        let size = rng.range(1, 3);
+        let program = if rng.chance(700) { gen::valid_program(&mut rng, size) } else { gen::document(&mut rng, DocKind::Unicode) };
+        let mut cur = String::new();
+        for piece in gen::type_from_scratch(&mut rng, &program, 300) {
+            let e = gen::to_lsp_edit(&cur, cur.len()..cur.len(), piece);
+            gen::apply(&mut cur, &e);
+            s.change(&uri, vec![e]);
+        }
+        n = rng.below(5);
+    }
     for _ in 0..n {
         let text = s.text(&uri).cloned().unwrap_or_default();
         let mut cur = text.clone();
